@@ -1,4 +1,5 @@
 import YardlProofs.Rules
+import YardlModel.TypeRules
 import YardlGenerated.Pipeline
 import Props.C11
 import YardlProofs.Topo
@@ -21,7 +22,13 @@ Proved here:
 * `import_and_version_errors_returned` — from C11: the errors of imported packages (recursive
   parse) and of every previous version (parse, validate, evolution) are returned to the caller.
 
-Tie (`checks/c09.py`): one violation of each documented rule is injected into valid random packages at
+* `type_rules_enforced_anywhere` with `null_must_be_first`, `null_alone_is_rejected`, `unions_do_not_nest`,
+  `map_key_must_be_scalar`, `array_dimension_rules` — the union / map / array rules themselves
+  (`YardlModel/TypeRules.lean`: one predicate per type node, over types whose names are primitives), and that a node
+  breaking them is rejected wherever it occurs.
+
+Tie (`checks/c09.py`): random types over primitive names (40 % of them rule-breaking) judged by `yardl validate` and by
+`TypeRules.typeOk` (verdicts must agree); one violation of each documented rule is injected into valid random packages at
 every kind of position and placement; `yardl validate` must fail and name the offending file.
 -/
 
@@ -49,6 +56,53 @@ example :
       (.cons none (.named "Box" (.cons (.array bad none) .nil)) .nil))))) none
     Sub bad t := by
   refine .vec _ _ _ (.val _ _ _ (.opt _ _ (.case _ _ _ (.tail _ _ _ _ (.head _ _ _)) (.arg _ _ _ _ (.head _ _) (.arr _ _ _ (.refl _))))))
+
+/-! ### the rules themselves (`YardlModel/TypeRules.lean`), enforced wherever the node occurs -/
+
+open Yardl.TypeRules in
+/-- a type node that breaks the union / map / array rules makes every type that contains it rejected -/
+theorem type_rules_enforced_anywhere (canon : Canon) (s t : Sur) (h : Sub s t) (hbad : nodeOk canon s = false) :
+    typeOk canon t = false :=
+  violation_anywhere_rejects (nodeOk canon) s t h hbad
+
+open Yardl.TypeRules in
+/-- `null` anywhere but first in a union is rejected, whatever the other cases and tags are -/
+theorem null_must_be_first (canon : Canon) (tag tag' : Option String) (t : Sur) (rest : SurC) :
+    nodeOk canon (.union (.cons tag t (.null tag' rest))) = false := by
+  simp [nodeOk, unionOk, SurC.toList]
+
+open Yardl.TypeRules in
+/-- `null` alone is not a union -/
+theorem null_alone_is_rejected (canon : Canon) (tag : Option String) : nodeOk canon (.union (.null tag .nil)) = false := by
+  simp [nodeOk, unionOk, SurC.toList]
+
+open Yardl.TypeRules in
+/-- an optional or a union of several cases directly inside an optional or a union of several cases is rejected -/
+theorem unions_do_not_nest (canon : Canon) (inner : Sur) (hi : unionLike inner = true) (tag tag' : Option String) (u : Sur) (rest : SurC) :
+    nodeOk canon (.opt inner) = false ∧
+    nodeOk canon (.union (.cons tag inner (.cons tag' u rest))) = false ∧
+    nodeOk canon (.union (.cons tag u (.cons tag' inner rest))) = false := by
+  refine ⟨?_, ?_, ?_⟩ <;> simp [nodeOk, unionOk, SurC.toList, hi]
+
+open Yardl.TypeRules in
+/-- a map key that is a vector, an array, a map, an optional or a union of several cases is rejected -/
+theorem map_key_must_be_scalar (canon : Canon) (v x y : Sur) (l : Option Nat) (d : Option (List Dim)) (tag tag' : Option String) (rest : SurC) :
+    nodeOk canon (.map (.vector x l) v) = false ∧ nodeOk canon (.map (.array x d) v) = false ∧
+    nodeOk canon (.map (.map x y) v) = false ∧ nodeOk canon (.map (.opt x) v) = false ∧
+    nodeOk canon (.map (.union (.cons tag x (.cons tag' y rest))) v) = false := by
+  refine ⟨?_, ?_, ?_, ?_, ?_⟩ <;> simp [nodeOk, keyOk, under]
+
+open Yardl.TypeRules in
+/-- lengths on some dimensions only, or a repeated dimension name, are rejected -/
+theorem array_dimension_rules (canon : Canon) (t : Sur) (n : String) (k : Nat) (ds : List Dim) :
+    nodeOk canon (.array t (some (⟨some n, some k⟩ :: ⟨some (n ++ "x"), none⟩ :: ds))) = false ∧
+    nodeOk canon (.array t (some (⟨some n, none⟩ :: ⟨some n, none⟩ :: ds))) = false := by
+  constructor <;> simp [nodeOk, dimsOk, distinctStr]
+
+/-- non-vacuity: a well-formed nested type is accepted by the model -/
+example : TypeRules.typeOk (fun _ => some "p")
+    (.map (.named "k" .nil) (.vector (.opt (.array (.named "v" .nil) (some [⟨none, some 2⟩, ⟨none, some 3⟩]))) none)) = true := by
+  decide
 
 def notChildren (s f : String) : Bool :=
   f.startsWith "Resolved" || (s == "Namespace" && f == "References") ||
